@@ -169,4 +169,38 @@ def printPlainFrag (f : Text × CText) : CText :=
 /-- `renderer.print_formatted_text(PlainTextOutput(stdout), fragments, …)`: what is handed to `flush_stdout` -/
 def printPlain (frs : List (Text × CText)) : CText := frs.flatMap printPlainFrag
 
+/-! ### `create_output()` (output/defaults.py), POSIX branch: which writer class gets the stream -/
+
+inductive Writer
+  | dummy   -- `DummyOutput()`: no stream at all
+  | plain   -- `PlainTextOutput(stdout)`: `write` does NOT escape (meant for files and pipes)
+  | vt100   -- `Vt100_Output.from_pty(stdout, …)`: `write` replaces ESC
+deriving DecidableEq, Repr
+
+/-- what `create_output` looks at.  A stream is `none` (the object is `None`) or `some isatty`. -/
+structure COIn where
+  /-- the `stdout` argument -/
+  arg : Option Bool
+  sysOut : Option Bool
+  sysErr : Option Bool
+  preferTty : Bool
+  /-- `is_dumb_terminal($TERM)` — read by `create_output` only to pass `term` on, never to choose the class -/
+  termDumb : Bool
+deriving DecidableEq, Repr
+
+/-- the stream `create_output` ends up with (`StdoutProxy` unwrapping aside) -/
+def chosenStream (i : COIn) : Option Bool :=
+  match i.arg with
+  | some t => some t
+  | none =>
+    if i.preferTty then
+      (if i.sysOut = some true then i.sysOut else if i.sysErr = some true then i.sysErr else i.sysOut)
+    else i.sysOut
+
+/-- `create_output(stdout, always_prefer_tty)` on a POSIX platform -/
+def createOutput (i : COIn) : Writer :=
+  match chosenStream i with
+  | none => .dummy
+  | some tty => if !tty then .plain else .vt100
+
 end Ptk.C10
